@@ -871,8 +871,11 @@ func (sw *SlidingWindow) handleLateData(eventTime time.Time, allowedLateness tim
 	// Find the triggered windows this late data belongs to: with slide < size there can be
 	// several. They are delivered again in the order of their ends.
 	var slots []*types.TimeSlot
+	// a fired window is open for late rows until the watermark reaches its end + allowance;
+	// whether the trigger goroutine has already removed it is a matter of timing
+	wmNow := sw.watermark.GetCurrentWatermark()
 	for _, info := range sw.triggeredWindows {
-		if info.slot.Contains(eventTime) {
+		if info.slot.Contains(eventTime) && wmNow.Before(info.closeTime) {
 			slots = append(slots, info.slot)
 		}
 	}
